@@ -885,6 +885,10 @@ type StoreMeta struct {
 	Version   uint64
 	StartNano int64
 	Total     int
+	// the capacity the entries were saved under and the adaptive window size at
+	// that time (zero in streams written before these fields existed)
+	Capacity  uint
+	WindowCap uint
 }
 
 func (m *StoreMeta) Persist(writer io.Writer, blockEncoder *gob.Encoder) error {
@@ -917,6 +921,8 @@ func (s *Store[K, V]) Persist(version uint64, writer io.Writer) error {
 		Version:   version,
 		StartNano: s.timerwheel.clock.Start.UnixNano(),
 		Total:     total,
+		Capacity:  s.policy.capacity,
+		WindowCap: s.policy.window.capacity,
 	}
 	err := meta.Persist(writer, blockEncoder)
 	if err != nil {
@@ -1017,6 +1023,12 @@ func (s *Store[K, V]) Recover(version uint64, reader io.Reader) error {
 	s.policyMu.Lock()
 	defer s.policyMu.Unlock()
 	metaSeen := false
+	sameSize := false
+	// room reports whether an entry of the given weight may still be restored
+	// into a cache of the saved size
+	room := func(weight int64) bool {
+		return s.policy.weightedSize+uint(weight) <= s.policy.capacity
+	}
 	for {
 		// reset block first
 		block.Data = nil
@@ -1055,6 +1067,20 @@ func (s *Store[K, V]) Recover(version uint64, reader io.Reader) error {
 			metaSeen = true
 			s.timerwheel.clock.SetStart(m.StartNano)
 			s.policy.sketch.EnsureCapacity(uint(m.Total))
+			if m.Capacity == s.policy.capacity && m.WindowCap >= 1 && m.WindowCap < m.Capacity {
+				// same size: the regions were filled under the adaptive split saved
+				// with them, not under the default one. Restore it, so that every
+				// saved entry has room again; only the total capacity limits the load
+				sameSize = true
+				grown := int(m.WindowCap) - int(s.policy.window.capacity)
+				s.policy.window.capacity = m.WindowCap
+				if protected := int(s.policy.slru.protected.capacity) - grown; protected > 0 {
+					s.policy.slru.protected.capacity = uint(protected)
+				} else {
+					s.policy.slru.protected.capacity = 0
+				}
+				s.policy.slru.maxsize = s.policy.capacity - m.WindowCap
+			}
 		case 2: // window lru
 			entryDecoder := gob.NewDecoder(reader)
 			for {
@@ -1070,7 +1096,7 @@ func (s *Store[K, V]) Recover(version uint64, reader io.Reader) error {
 				if expire != 0 && expire < s.timerwheel.clock.NowNano() {
 					continue
 				}
-				if s.policy.window.Len() < int(s.policy.window.capacity) {
+				if (sameSize && room(pentry.PolicyWeight)) || (!sameSize && s.policy.window.Len() < int(s.policy.window.capacity)) {
 					entry := pentry.entry()
 					s.policy.window.PushBack(entry)
 					s.insertSimple(entry)
@@ -1097,7 +1123,7 @@ func (s *Store[K, V]) Recover(version uint64, reader io.Reader) error {
 				}
 				l1 := s.policy.slru.protected
 				l2 := s.policy.slru.probation
-				if l1.len+l2.len < int64(s.policy.slru.maxsize) {
+				if (sameSize && room(pentry.PolicyWeight)) || (!sameSize && l1.len+l2.len < int64(s.policy.slru.maxsize)) {
 					entry := pentry.entry()
 					l2.PushBack(entry)
 					s.insertSimple(entry)
@@ -1123,7 +1149,7 @@ func (s *Store[K, V]) Recover(version uint64, reader io.Reader) error {
 					continue
 				}
 				l := s.policy.slru.protected
-				if l.len < int64(l.capacity) {
+				if (sameSize && room(pentry.PolicyWeight)) || (!sameSize && l.len < int64(l.capacity)) {
 					entry := pentry.entry()
 					l.PushBack(entry)
 					s.insertSimple(entry)
